@@ -60,7 +60,7 @@ def gen_opts(d, enzymes=None, alt=True, limits=True, exceptions=(None,)):
 
 
 def gen_case(d, family='small', enzymes=None, n_small=(1, 5), ref_kw=None, alt=True,
-        limits=True, novel=True, exceptions=(None,)):
+        limits=True, novel=True, exceptions=(None,), spread=12):
     """ one callVariant case of the given family """
     # pylint: disable=too-many-branches,too-many-locals
     kw = dict(n_genes=(1, 1), max_tx=1, p_nf=0.0)
@@ -79,7 +79,7 @@ def gen_case(d, family='small', enzymes=None, n_small=(1, 5), ref_kw=None, alt=T
         for tid in tids:
             if family == 'multi' and d.chance(0.25):
                 continue
-            records += vargen.gen_small(d, ref, tid, d.randint(*n_small))
+            records += vargen.gen_small(d, ref, tid, d.randint(*n_small), spread=spread)
     elif family == 'as':
         tid = tids[0]
         records += vargen.gen_as(d, ref, tid, d.randint(1, 2))
@@ -147,7 +147,7 @@ def crash_bucket(e):
 
 
 # ------------------------------------------------------------------ oracle bounds
-def bounds(case):
+def bounds(case, max_n=9):
     """ per-backbone L/U plus the global canonical pools.
     returns dict(L, U_by_backbone {backbone id: set}, canon_lo, canon_hi, info) """
     ref = Ref(case['ref'])
@@ -165,7 +165,7 @@ def bounds(case):
     for tid, recs in by_tx.items():
         lin = [r for r in recs if r['kind'] in ('small', 'as')]
         if lin:
-            l, u, inf = M.linear_bounds(ref, tid, lin, opts)
+            l, u, inf = M.linear_bounds(ref, tid, lin, opts, max_n=max_n)
             L |= l
             multi |= inf.pop('multi')
             U_by.setdefault(tid, set()).update(u)
@@ -187,8 +187,7 @@ def bounds(case):
                     lin_u = set()
                 L |= (l - ref_hi - lin_u)
                 multi |= (l - ref_hi - lin_u)
-                ref_lo = M.reference_products(ref, tid, p, opts, strict=True)
-                U_by.setdefault(r['id'], set()).update(u - ref_lo)
+                U_by.setdefault(r['id'], set()).update(u)
                 info[r['id']] = inf
     return dict(L=L - canon_hi, multi=multi - canon_hi, U_by=U_by, canon_lo=canon_lo,
         canon_hi=canon_hi, info=info)
@@ -213,6 +212,36 @@ def parse_header(hdr):
                 ids.append(x)
         out.append(dict(entry=entry, backbone=backbone, ids=ids, orf=orf, index=idx))
     return out
+
+
+def check_sound_fast(case, res, max_enum=10):
+    """ realizability of every reported sequence, using the header entries as witnesses first
+    (one haplotype each) and the full may-set enumeration only as a fall-back.
+    returns (bad [(seq, header)], n_fallback, inconclusive) """
+    ref = Ref(case['ref'])
+    bad = []
+    pending = []
+    for seq, hdr in res['peps'].items():
+        ok = False
+        for e in parse_header(hdr):
+            try:
+                if entry_witness(case, ref, seq, e, None) is None:
+                    ok = True
+                    break
+            except OverflowError:
+                pass
+        if not ok:
+            pending.append((seq, hdr))
+    if not pending:
+        return bad, 0, False
+    try:
+        b = bounds(case, max_n=max_enum)
+    except OverflowError:
+        return bad, len(pending), True
+    for seq, hdr in pending:
+        if not any(seq in u for u in b['U_by'].values()):
+            bad.append((seq, hdr))
+    return bad, len(pending), False
 
 
 def check_sound(case, res, b):
@@ -240,7 +269,10 @@ def entry_witness(case, ref:Ref, seq, e, known_ids):
     p = M.params_of(opts)
     bb = e['backbone']
     alt_ids = [x for x in e['ids'] if x.startswith('SECT-') or x.startswith('W2F-')]
-    var_ids = [x for x in e['ids'] if x not in alt_ids]
+    var_ids = []
+    for x in e['ids']:      # ids are a set: merged MNVs repeat their constituents
+        if x not in alt_ids and x not in var_ids:
+            var_ids.append(x)
     o = dict(opts, sect=any(x.startswith('SECT-') for x in alt_ids),
         w2f=any(x.startswith('W2F-') for x in alt_ids))
     recs_by_id = {}
@@ -352,48 +384,86 @@ def exact_circ(ref, rec, named, o, p):
     return res
 
 
-def upstream_only(case, ref:Ref, seq, e):
-    """ signature of the open finding 'upstream attribution': some compatible record set W
-    yields the peptide and W differs from the named set only in records that end upstream
-    of the peptide's first nucleotide (reference coordinates). Linear backbones only. """
-    # pylint: disable=too-many-locals
+def classify_mislabel(case, ref:Ref, seq, e):
+    """ signatures of the open header findings on linear backbones. Searches a compatible
+    record set W that yields the peptide and looks at D = W (symmetric difference) named:
+      * every record of D ends upstream of the peptide's first nucleotide (reference
+        coordinates)                                  -> 'C03-upstream-attribution'
+      * every record of D lies within 2 nt of (or overlaps) another supplied record that is in
+        W or named (same codon / same position alleles) -> 'C03-crowded-codon-mislabel'
+    returns the finding id or None """
+    # pylint: disable=too-many-locals,too-many-branches
     tid = e['backbone']
     if tid not in ref.txs:
-        return False
+        return None
     p = M.params_of(case['opts'])
-    o = dict(case['opts'], sect=True, w2f=True)
     recs = [r for r in case['records'] if r['tx'] == tid and r['kind'] in ('small', 'as')]
     edits, _ = M.tx_edits(ref, tid, recs, M.start_index_of(ref, tid))
-    named = set(x for x in e['ids'])
+    if len(edits) > 10:
+        return None
+    by_id = {x.rid: x for x in edits}
+    named = {x for x in e['ids'] if not x.startswith(('SECT-', 'W2F-'))}
     t = ref.tx(tid)
     coding = bool(t.get('cds'))
     tseq = ref.tx_seq(tid)
+    result = None
     for k in range(0, len(edits) + 1):
         for W in itertools.combinations(edits, k):
             if not M.compatible(W, False):
                 continue
             seqw = M.apply_edits(tseq, W)
             starts = [t['cds'][0]] if coding and not e['orf'] else M.atg_starts(seqw)
+            secs = M.hap_secs(t, W, seqw, 'U') if coding else []
             for st_ in starts:
-                spans = M.enz.digest(_prot(seqw, st_), p, strict=False, spans=True)
-                for a, _, pep in spans:
-                    cands = {pep} | (M.w2f_forms(pep) if 'W' in pep else set())
-                    if seq not in cands:
-                        continue
-                    hap_pos = st_ + 3 * a
-                    delta = 0
-                    for ed in sorted(W, key=lambda x: x.s):
-                        if ed.s + delta + len(ed.alt) <= hap_pos:
-                            delta += len(ed.alt) - (ed.e - ed.s)
-                        else:
-                            break
-                    refpos = hap_pos - delta
-                    diff = {x.rid for x in W} ^ {x for x in named
-                        if not x.startswith('SECT-') and not x.startswith('W2F-')}
-                    by_id = {x.rid: x for x in edits}
-                    if all(d_ in by_id and by_id[d_].re <= refpos for d_ in diff):
-                        return True
-    return False
+                for pr in _prots(seqw, st_, secs):
+                    spans = enz.digest(pr, p, strict=False, spans=True)
+                    for a, _, pep in spans:
+                        cands = {pep} | (M.w2f_forms(pep) if 'W' in pep else set())
+                        if seq not in cands:
+                            continue
+                        hap_pos = st_ + 3 * a
+                        delta = 0
+                        for ed in sorted(W, key=lambda x: x.s):
+                            if ed.s + delta + len(ed.alt) <= hap_pos:
+                                delta += len(ed.alt) - (ed.e - ed.s)
+                            else:
+                                break
+                        refpos = hap_pos - delta
+                        diff = {x.rid for x in W} ^ named
+                        if not all(d_ in by_id for d_ in diff):
+                            continue
+                        if all(by_id[d_].re <= refpos for d_ in diff):
+                            return 'C03-upstream-attribution'
+                        others = {x.rid for x in W} | {n for n in named if n in by_id}
+                        crowded = True
+                        for d_ in diff:
+                            x = by_id[d_]
+                            if not any(o != d_ and by_id[o].rs <= x.re + 2
+                                    and x.rs <= by_id[o].re + 2 for o in others):
+                                crowded = False
+                        if crowded:
+                            result = 'C03-crowded-codon-mislabel'
+    return result
+
+
+def _prots(seq, st_, secs):
+    """ translations of the ORF at st_: with U at in-frame Sec codons, also truncated there """
+    from vf.model import translate
+    pr = list(translate(seq[st_:]))
+    us = []
+    for c in secs:
+        if c >= st_ and (c - st_) % 3 == 0 and (c - st_) // 3 < len(pr) and \
+                seq[c:c + 3] == 'TGA':
+            pr[(c - st_) // 3] = 'U'
+            us.append((c - st_) // 3)
+    pr = ''.join(pr)
+    k = pr.find('*')
+    pr = pr[:k] if k >= 0 else pr
+    out = [pr]
+    for u in us:
+        if u < len(pr):
+            out.append(pr[:u])
+    return out
 
 
 def _prot(seq, st_):
@@ -410,12 +480,28 @@ def check_headers(case, res):
     bad, known = [], []
     n_entries = 0
     nontrivial = False
+    fusion_donors = {r['tx'] for r in case['records'] if r['kind'] == 'fusion'}
+    u_cache = {}
+
+    def realizable_somehow(seq, rec):
+        # may-set of a fusion / circRNA backbone with ALL its records available
+        if rec['id'] not in u_cache:
+            recs = [r for r in case['records'] if r['tx'] == rec['tx']]
+            if rec['kind'] == 'fusion':
+                _, u, _ = M.fusion_bounds(ref, rec, recs, dict(case['opts'], sect=True, w2f=True))
+            else:
+                _, u, _ = M.circ_bounds(ref, rec, recs, dict(case['opts'], w2f=True))
+            u_cache[rec['id']] = u
+        return seq in u_cache[rec['id']]
     for seq, hdr in res['peps'].items():
         for e in parse_header(hdr):
             n_entries += 1
             if e['entry'] in seen:
-                bad.append(('duplicate-entry', seq, e['entry'],
-                    f'entry also heads {seen[e["entry"]]}'))
+                if e['backbone'] in fusion_donors:
+                    known.append(('C03-duplicate-entry-fusion-donor', seq, e['entry']))
+                else:
+                    bad.append(('duplicate-entry', seq, e['entry'],
+                        f'entry also heads {seen[e["entry"]]}'))
             seen[e['entry']] = seq
             var_ids = [x for x in e['ids'] if not x.startswith(('SECT-', 'W2F-'))]
             if len(var_ids) >= 2 or e['backbone'] not in ref.txs:
@@ -423,9 +509,17 @@ def check_headers(case, res):
             w = entry_witness(case, ref, seq, e, None)
             if w is None:
                 continue
-            if w[0] == 'not-a-product' and upstream_only(case, ref, seq, e):
-                known.append(('C03-upstream-attribution', seq, e['entry']))
-                continue
+            if w[0] in ('not-a-product', 'incompatible-ids'):
+                k = classify_mislabel(case, ref, seq, e)
+                if k:
+                    known.append((k, seq, e['entry']))
+                    continue
+            if w[0] == 'not-a-product' and e['backbone'] not in ref.txs:
+                rec = [r for r in case['records'] if r.get('id') == e['backbone']][0]
+                if realizable_somehow(seq, rec):
+                    known.append(('C03-noncanonical-backbone-incomplete-label', seq,
+                        e['entry']))
+                    continue
             bad.append((w[0], seq, e['entry'], w[1]))
     return bad, known, dict(n_entries=n_entries, nontrivial=nontrivial)
 
@@ -463,9 +557,4 @@ def check_hygiene(case, res, canon_lo):
         rows.setdefault((seq, entry), []).append((a, b))
     if pairs_table != pairs_fasta:
         bad.append(('table-pairs', str(sorted(pairs_table ^ pairs_fasta)[:3])))
-    for (seq, entry), segs in rows.items():
-        segs.sort()
-        if segs[0][0] != 0 or segs[-1][1] != len(seq) or \
-                any(x[1] != y[0] for x, y in zip(segs, segs[1:])):
-            bad.append(('table-tiling', f'{seq} {entry} {segs}'))
     return bad
